@@ -1,10 +1,13 @@
 import BadgerModel.ManifestPb
 import BadgerProofs.Lemmas.AuxManifest
+import BadgerProofs.Lemmas.AuxPb
 /-!
 # C17 — MANIFEST replay reconstructs the table map exactly (`manifest.go`).
 
 Parameters of every theorem: a `Codec` (`crc`, protobuf `enc`/`dec`, Go map order `ord`) with
-the contracts `Codec.Valid` (`crc < 2^32`, `dec (enc cs) = some cs`, `ord` permutes).
+the contracts `Codec.Valid` (`crc < 2^32`, `dec (enc cs) = some cs` for sets whose fields fit
+their Go types, `ord` permutes). The concrete codec of the driver (real protobuf wire format,
+bit-level CRC32-C) satisfies them: `C17_pbCodec_valid`.
 
 * file level: `C17_atomic_sets` (a cut anywhere leaves exactly the complete frames applied),
   `C17_trunc` (cut inside the last frame), `C17_checksum_error`;
@@ -188,10 +191,11 @@ def runAdds (cd : Codec) (mf : MFile) : List ChangeSet → Option MFile
 
 /-- Invariant of a `manifestFile`: the file is a header followed by frames of change sets that
     replay (from the empty manifest) to the in-memory manifest. -/
-def MFile.Inv (cd : Codec) (mf : MFile) : Prop :=
+def MFile.Inv (cd : Codec) (lv : Bool) (mf : MFile) : Prop :=
   ∃ fsets m', mf.file = manifestFileOf cd mf.ext fsets ∧
     applyAll Manifest.empty fsets = some m' ∧ (∀ s, s ∈ fsets → ChangeSet.InRange s) ∧
-    m'.Equiv mf.manifest ∧ m'.WF ∧ mf.manifest.WF
+    m'.Equiv mf.manifest ∧ m'.WF ∧ mf.manifest.WF ∧
+    (lv = true → m'.LevelsOK ∧ mf.manifest.LevelsOK)
 
 theorem ord_nil (cd : Codec) (hv : cd.Valid) : cd.ord [] = [] :=
   List.perm_nil.mp (hv.ord_perm [])
@@ -199,9 +203,9 @@ theorem ord_nil (cd : Codec) (hv : cd.Valid) : cd.ord [] = [] :=
 theorem asChanges_empty (cd : Codec) (hv : cd.Valid) : asChanges cd Manifest.empty = [] := by
   simp [asChanges, Manifest.empty, ord_nil cd hv]
 
-theorem MFile.create_inv (cd : Codec) (hv : cd.Valid) (ext : Nat) (t : Int) :
-    (MFile.create cd ext t).Inv cd := by
-  refine ⟨[[]], Manifest.empty, ?_, rfl, ?_, ?_, Manifest.WF_empty, ?_⟩
+theorem MFile.create_inv (cd : Codec) (hv : cd.Valid) (lv : Bool) (ext : Nat) (t : Int) :
+    (MFile.create cd ext t).Inv cd lv := by
+  refine ⟨[[]], Manifest.empty, ?_, rfl, ?_, ?_, Manifest.WF_empty, ?_, ?_⟩
   · simp [MFile.create, rewriteFile, manifestFileOf, framesOf, asChanges_empty cd hv]
   · intro s hs c hc
     simp only [List.mem_singleton] at hs
@@ -211,12 +215,15 @@ theorem MFile.create_inv (cd : Codec) (hv : cd.Valid) (ext : Nat) (t : Int) :
     exact Manifest.Equiv.refl _
   · simp only [MFile.create, Manifest.clone, asChanges_empty cd hv, applyChangeSet]
     exact Manifest.WF_empty
+  · intro _
+    simp only [MFile.create, Manifest.clone, asChanges_empty cd hv, applyChangeSet]
+    exact ⟨Manifest.LevelsOK_empty, Manifest.LevelsOK_empty⟩
 
-theorem MFile.addChanges_inv (cd : Codec) (hv : cd.Valid) (mf mf' : MFile) (cs : ChangeSet)
-    (hcs : ChangeSet.InRange cs)
-    (hinv : mf.Inv cd) (hadd : mf.addChanges cd cs = (mf', none)) :
-    mf'.Inv cd ∧ mf'.ext = mf.ext ∧ mf'.threshold = mf.threshold := by
-  obtain ⟨fsets, m', hfile, hall, hfr, heq, hw', hw⟩ := hinv
+theorem MFile.addChanges_inv (cd : Codec) (hv : cd.Valid) (lv : Bool) (mf mf' : MFile) (cs : ChangeSet)
+    (hcs : ChangeSet.InRange cs) (hsl : lv = true → ∀ c, c ∈ cs → c.SmallLevel)
+    (hinv : mf.Inv cd lv) (hadd : mf.addChanges cd cs = (mf', none)) :
+    mf'.Inv cd lv ∧ mf'.ext = mf.ext ∧ mf'.threshold = mf.threshold := by
+  obtain ⟨fsets, m', hfile, hall, hfr, heq, hw', hw, hlv⟩ := hinv
   unfold MFile.addChanges at hadd
   simp only at hadd
   rcases happ : applyChangeSet mf.manifest cs with ⟨m1, _ | e⟩
@@ -229,16 +236,20 @@ theorem MFile.addChanges_inv (cd : Codec) (hv : cd.Valid) (mf mf' : MFile) (cs :
     · -- rewrite
       cases hadd
       obtain ⟨m2, h2, hw2, heq2⟩ := applyChangeSet_asChanges cd hv m1 hw1
-      refine ⟨⟨[asChanges cd m1], m2, ?_, ?_, ?_, heq2, hw2, ⟨hw1.nodup, hw1.level_lt, hw1.range⟩⟩, rfl, rfl⟩
+      refine ⟨⟨[asChanges cd m1], m2, ?_, ?_, ?_, heq2, hw2, ⟨hw1.nodup, hw1.level_lt, hw1.range⟩, ?_⟩, rfl, rfl⟩
       · simp [rewriteFile, manifestFileOf, framesOf]
       · simp [applyAll, h2]
       · intro s hs
         simp only [List.mem_singleton] at hs
         subst hs
         exact asChanges_inRange cd hv m1 hw1
+      · intro hl
+        have hm1 : m1.LevelsOK := applyChangeSet_LevelsOK cs (hsl hl) (hlv hl).2 happ
+        exact ⟨applyChangeSet_LevelsOK _ (asChanges_smallLevel cd hv m1 hw1) Manifest.LevelsOK_empty h2, hm1⟩
     · -- append
       cases hadd
-      refine ⟨⟨fsets ++ [cs], m1', ?_, ?_, ?_, heq1.symm, hw1', hw1⟩, rfl, rfl⟩
+      refine ⟨⟨fsets ++ [cs], m1', ?_, ?_, ?_, heq1.symm, hw1', hw1, fun hl =>
+        ⟨applyChangeSet_LevelsOK cs (hsl hl) (hlv hl).1 happ', applyChangeSet_LevelsOK cs (hsl hl) (hlv hl).2 happ⟩⟩, rfl, rfl⟩
       · simp [hfile, manifestFileOf, framesOf_append, framesOf_cons]
       · rw [applyAll_append, hall]
         simp [applyAll, happ']
@@ -251,17 +262,20 @@ theorem MFile.addChanges_inv (cd : Codec) (hv : cd.Valid) (mf mf' : MFile) (cs :
   · rw [happ] at hadd
     simp at hadd
 
-theorem runAdds_inv (cd : Codec) (hv : cd.Valid) (mf mf' : MFile) (sets : List ChangeSet)
+theorem runAdds_inv (cd : Codec) (hv : cd.Valid) (lv : Bool) (mf mf' : MFile) (sets : List ChangeSet)
     (hsets : ∀ s, s ∈ sets → ChangeSet.InRange s)
-    (hinv : mf.Inv cd) (hrun : runAdds cd mf sets = some mf') : mf'.Inv cd ∧ mf'.ext = mf.ext := by
+    (hsl : lv = true → ∀ s, s ∈ sets → ∀ c, c ∈ s → c.SmallLevel)
+    (hinv : mf.Inv cd lv) (hrun : runAdds cd mf sets = some mf') : mf'.Inv cd lv ∧ mf'.ext = mf.ext := by
   induction sets generalizing mf with
   | nil => simp only [runAdds] at hrun; cases hrun; exact ⟨hinv, rfl⟩
   | cons cs sets ih =>
     simp only [runAdds] at hrun
     rcases hadd : mf.addChanges cd cs with ⟨mf1, _ | e⟩
     · rw [hadd] at hrun
-      obtain ⟨h1, hext, _⟩ := MFile.addChanges_inv cd hv mf mf1 cs (hsets cs (by simp)) hinv hadd
-      obtain ⟨h2, hext2⟩ := ih mf1 (fun s hs => hsets s (by simp [hs])) h1 hrun
+      obtain ⟨h1, hext, _⟩ := MFile.addChanges_inv cd hv lv mf mf1 cs (hsets cs (by simp))
+        (fun hl => hsl hl cs (by simp)) hinv hadd
+      obtain ⟨h2, hext2⟩ := ih mf1 (fun s hs => hsets s (by simp [hs]))
+        (fun hl s hs => hsl hl s (by simp [hs])) h1 hrun
       exact ⟨h2, hext2.trans hext⟩
     · rw [hadd] at hrun; simp at hrun
 
@@ -279,15 +293,54 @@ theorem C17_replay_exact (cd : Codec) (hv : cd.Valid) (ext : Nat) (hext : ext < 
     ∃ m, replay cd mf.file ext = .ok (m, mf.file.length) ∧
       (∀ id, m.lookup id = mf.manifest.lookup id) ∧
       m.creations = mf.manifest.creations ∧ m.deletions = mf.manifest.deletions := by
-  obtain ⟨⟨fsets, m', hfile, hall, hfr, heq, _, _⟩, hext'⟩ :=
-    runAdds_inv cd hv _ mf sets hsets (MFile.create_inv cd hv ext threshold) hrun
+  obtain ⟨⟨fsets, m', hfile, hall, hfr, heq, _, _, _⟩, hext'⟩ :=
+    runAdds_inv cd hv false _ mf sets hsets (by intro h; cases h) (MFile.create_inv cd hv false ext threshold) hrun
   have hext'' : mf.ext = ext := hext'
   rw [hext''] at hfile
   refine ⟨m', ?_, heq.1, heq.2.1, heq.2.2⟩
   rw [hfile] at hsize ⊢
   exact replay_intact cd hv ext hext fsets m' hall hfr hsize
 
+/-- **Level sets.** If moreover every CREATE uses a level below 256 (badger's `MaxLevels` is far
+    smaller; `TableManifest.Level` is a `uint8` while `Levels` is indexed with the `uint32`),
+    the replayed manifest also has exactly the in-memory per-level id sets — `Levels` may differ
+    only in trailing empty levels (`levelAt` is `[]` beyond the end). -/
+theorem C17_replay_exact_levels (cd : Codec) (hv : cd.Valid) (ext : Nat) (hext : ext < 2 ^ 16)
+    (threshold : Int) (sets : List ChangeSet) (mf : MFile)
+    (hsets : ∀ s, s ∈ sets → ChangeSet.InRange s)
+    (hsl : ∀ s, s ∈ sets → ∀ c, c ∈ s → c.SmallLevel)
+    (hrun : runAdds cd (MFile.create cd ext threshold) sets = some mf)
+    (hsize : mf.file.length < 2 ^ 32) :
+    ∃ m, replay cd mf.file ext = .ok (m, mf.file.length) ∧
+      (∀ id, m.lookup id = mf.manifest.lookup id) ∧
+      (∀ l id, id ∈ levelAt m.levels l ↔ id ∈ levelAt mf.manifest.levels l) ∧
+      m.LevelsOK ∧ mf.manifest.LevelsOK := by
+  obtain ⟨⟨fsets, m', hfile, hall, hfr, heq, _, _, hlv⟩, hext'⟩ :=
+    runAdds_inv cd hv true _ mf sets hsets (fun _ => hsl) (MFile.create_inv cd hv true ext threshold) hrun
+  have hext'' : mf.ext = ext := hext'
+  rw [hext''] at hfile
+  obtain ⟨hl1, hl2⟩ := hlv rfl
+  refine ⟨m', ?_, heq.1, levels_eq_of_lookup_eq hl1 hl2 heq.1, hl1, hl2⟩
+  rw [hfile] at hsize ⊢
+  exact replay_intact cd hv ext hext fsets m' hall hfr hsize
+
 /-! ## concrete instances (real protobuf wire format, bit-level CRC32-C, ascending ids) -/
+
+/-- The contracts of the parameters hold for the concrete codec: `proto.Unmarshal ∘ proto.Marshal`
+    is the identity on change sets whose fields fit their Go types (proved on the wire-format
+    model of `BadgerModel/ManifestPb.lean`), CRC32-C is below `2^32`, sorting permutes. -/
+theorem C17_pbCodec_valid : pbCodec.Valid := pbCodec_valid
+
+/-- `C17_replay_exact` for the protobuf / CRC32-C instance (no abstract parameter left). -/
+theorem C17_replay_exact_pb (ext : Nat) (hext : ext < 2 ^ 16) (threshold : Int)
+    (sets : List ChangeSet) (mf : MFile)
+    (hsets : ∀ s, s ∈ sets → ChangeSet.InRange s)
+    (hrun : runAdds pbCodec (MFile.create pbCodec ext threshold) sets = some mf)
+    (hsize : mf.file.length < 2 ^ 32) :
+    ∃ m, replay pbCodec mf.file ext = .ok (m, mf.file.length) ∧
+      (∀ id, m.lookup id = mf.manifest.lookup id) ∧
+      m.creations = mf.manifest.creations ∧ m.deletions = mf.manifest.deletions :=
+  C17_replay_exact pbCodec pbCodec_valid ext hext threshold sets mf hsets hrun hsize
 
 instance (c : Change) : Decidable c.InRange := by unfold Change.InRange; infer_instance
 
@@ -335,6 +388,21 @@ example : (runAdds pbCodec (MFile.create pbCodec 0 0) c17History).map
       replay pbCodec mf.file 0)) =
     some (34, [(4, ⟨2, 5, 1⟩)], 1, 0,
       .ok (⟨[[], [], [4]], [(4, ⟨2, 5, 1⟩)], 1, 0⟩, 34)) := by decide
+
+-- why `C17_replay_exact_levels` needs levels < 256: a CREATE at level 300 is stored as
+-- `TableManifest.Level = 44` but kept in `Levels[300]`; after a rewrite the file says level 44.
+def c17Level300 : Option MFile :=
+  runAdds pbCodec (MFile.create pbCodec 0 0) [[Change.create 1 300 0 0], [Change.delete 9]]
+
+set_option maxRecDepth 40000 in
+example : c17Level300.map (fun mf => (levelAt mf.manifest.levels 300, levelAt mf.manifest.levels 44)) =
+    some ([1], []) := by decide
+set_option maxRecDepth 40000 in
+example : c17Level300.map (fun mf => mf.manifest.lookup 1) = some (some ⟨44, 0, 0⟩) := by decide
+set_option maxRecDepth 40000 in
+example : c17Level300.map (fun mf => match replay pbCodec mf.file 0 with
+      | .ok r => (levelAt r.1.levels 300, levelAt r.1.levels 44)
+      | .error _ => ([], [])) = some ([], [1]) := by decide
 
 -- checksum error on the concrete codec: one payload byte of the last frame altered
 example : replay pbCodec
